@@ -12,6 +12,7 @@ from vlib.ref import hashes, secp
 from vlib.util import call, expect_eq
 
 PROPERTY_ID = "C05"
+OPTIMIZED = ['addresses', 'scripts', 'hash160']   # clauses run a second time under `python -O` (assert statements stripped)
 RULE = ("keys from the scalar mixture plus a frozen table of 154 scalars whose public x has a leading zero byte; both "
         "networks; private and public node forms; the five wallet address methods and PublicKey.address in a "
         "generated request order on one key object; every string decoded by independent Base58Check/Bech32 decoders "
